@@ -111,6 +111,9 @@ type Sim struct {
 	Counters map[string]int64
 	mapReg   map[uintptr]*mapOrder
 	Vals     map[string]interface{} // free for seams/harness (per-run singletons)
+	// LogNorm, if set, rewrites every log line before it is hashed and stored
+	// (used to replace process-dependent id text by per-run canonical names).
+	LogNorm func(string) string
 }
 
 var active atomic.Pointer[Sim]
@@ -176,6 +179,9 @@ func Count(name string, d int64) {
 // scheduler may call it.  It never draws a choice and never reads a real clock.
 func (s *Sim) Logf(format string, a ...interface{}) {
 	line := fmt.Sprintf("%6d %s", s.Steps, fmt.Sprintf(format, a...))
+	if s.LogNorm != nil {
+		line = s.LogNorm(line)
+	}
 	h := fnv.New64a()
 	var b [8]byte
 	for i := 0; i < 8; i++ {
